@@ -466,7 +466,7 @@ def session(rng, k, kind, W, H, bypp, pref=None, nops=10):
         elif r < 0.77 and helper:
             L.append("ptr %d %d" % (rng.randint(0, W - 1), rng.randint(0, H - 1)))
         elif r < 0.81:
-            L.append("setcursor %d" % rng.randint(1, 3))
+            L.append("setcursor %d" % rng.randint(1, 7))      # 4..7: cursors with width or height 0
         elif r < 0.85:
             L.append("led %d" % rng.randint(0, 7))
         elif r < 0.88:
@@ -520,6 +520,21 @@ def degenerate_case(rng, k, enc, first, zero):
     if not first:
         L += ["fur 0 0 0 %d %d" % (W, H)]
     L += [fur, "fill 1 1 8 8 9 3", "fur 0 0 0 %d %d" % (W, H), "fur 1 0 0 %d %d" % (W, H)]
+    return L
+
+
+def cursorcopy_case(rng, k, kind, shape, pending, W=12, H=8):
+    """F26 dimension: cursor size (incl. 1x0, 0x1, 0x0, 3x0, 1x1 transparent) x soft cursor / cursor-shape client x
+    application copy over the cursor position x an update request pending or not while the copy is scheduled"""
+    encs = [0, 1] + ([E["XCursor"]] if shape else [])
+    cx, cy = rng.randint(2, W - 4), rng.randint(2, H - 3)
+    dx, dy = rng.choice([(1, 0), (-1, 0), (0, 1), (0, -1), (2, 1)])
+    L = ["case %d cursorcopy" % k, "screen %d %d 4" % (W, H), "connect 8 1 1 good=1", "helper", "setcursor %d" % kind,
+         "setenc " + " ".join(map(str, encs)), "ptr %d %d" % (cx, cy), "fur 1 0 0 %d %d" % (W, H)]
+    if pending:
+        L.append("fur 1 0 0 %d %d" % (W, H))
+    L.append("copy 1 1 %d %d %d %d" % (W - 3, H - 3, dx, dy))
+    L += ["fur 1 0 0 %d %d" % (W, H), "ptr %d %d" % (cx + 1, cy), "fill 0 0 3 3 7 0", "fur 1 0 0 %d %d" % (W, H)]
     return L
 
 
@@ -730,6 +745,11 @@ def gen_cases(ctx):
             for zero in ("w", "h"):
                 add(degenerate_case(rng, k, enc, first, zero))
     add(stickyclip_case(k))
+    # cursor sizes (degenerate ones included) x soft cursor / shape updates x copy x pending request (F26)
+    for kind in (1, 2, 3, 4, 5, 6, 7):
+        for shape in (False, True):
+            for pending in (True, False):
+                add(cursorcopy_case(rng, k, kind, shape, pending))
     add(wrap_case(k, 16, 16, 0, 0, 0))                  # 256 rectangles: fine
     add(wrap_case(k, 16, 16, 0, 0, 50))                 # coalesced to the bounding box
     add(wrap_case(k, 16, 16, 0, E["Zlib"], 50))         # exempt from coalescing
@@ -1152,8 +1172,16 @@ def analyse_case(case_lines, impl_lines, model_lines, crashed, stderr_tail):
     if res["model_trap"]:
         cause = "trap_div0"
     res["model_cause"] = cause
+    # a cursor with width or height 0 was installed at some point of the session (F26)
+    cursor_deg = False
+    for l in impl_lines:
+        if l.startswith("snap "):
+            m = re.search(r" cur=(-?\d+),(-?\d+),(-?\d+),(-?\d+),", l)
+            if m and (int(m.group(3)) <= 0 or int(m.group(4)) <= 0):
+                cursor_deg = True
     for (_, f) in res["oracle"]:
         f["model_cause"] = cause
+        f["degenerate_cursor"] = cursor_deg
     return res
 
 
